@@ -37,6 +37,9 @@ def check(ctx):
         check_typestate(ctx, tu, info)
         check_t2(ctx, tu, info)
         L.check_traversal(ctx, 'C02.T3', tu, info)
+        from .c01 import check_loop_exits
+        check_loop_exits(ctx, tu, rule='C02.T3')
+        check_map_stability(ctx, tu, info)
         check_t4(ctx, tu, info)
         check_t5(ctx, tu, info)
     ctx.require_min('C02.T1', 4)
@@ -100,6 +103,32 @@ def check_typestate(ctx, tu, info):
             want = 'remove' if f.name == 'doRemove' else 'insert'
             calls = [n for n in f.calls() if (f.callee_key(n) or '') == 'CallbackListBase::' + want]
             ctx.ob('C02.T1', f, 'heterogeneous %s forwards to the checked CallbackListBase::%s' % (f.name, want), len(calls) >= 1)
+
+
+def check_map_stability(ctx, tu, info):
+    """A callback may remove listeners of the event being dispatched: the listener list it runs in lives in a map element and
+    is reached through a pointer taken under the lock, so map elements must never be erased while the dispatcher lives."""
+    from .c03 import MAP_OK_METHODS
+    from .qcommon import is_lifetime
+    for f in tu.fns:
+        if f.outermost().skey.split('::')[0] not in ('EventDispatcherBase', 'HeterEventDispatcherBase') or is_lifetime(f):
+            continue
+        pm = f.parent_map()
+        for n, o in f.nodes.items():
+            if o['cls'] != 'MemberExpr' or f.decl(n)['kind'] != 'field' or f.decl(n)['name'] != 'eventCallbackListMap':
+                continue
+            p = pm.get(n)
+            while p and f.nodes[p]['cls'] in ('ImplicitCastExpr', 'ParenExpr'):
+                p = pm.get(p)
+            meth = None
+            if p and f.nodes[p]['cls'] == 'MemberExpr' and f.decl(p)['kind'] == 'func':
+                meth = f.decl(p)['name']
+            elif p and f.nodes[p]['cls'] == 'CXXOperatorCallExpr':
+                meth = 'operator' + f.nodes[p].get('op', '')
+            if meth is not None:
+                ctx.ob('C02.T2', f, 'listener lists are never destroyed while the dispatcher lives (%s)' % meth, meth in MAP_OK_METHODS,
+                       detail='%s on eventCallbackListMap at %s: a callback that removes the last listener of the event being dispatched frees the '
+                              'list that is invoking it' % (meth, f.nloc(n)), where=f.nloc(n), key_detail='map element destroyed ' + meth)
 
 
 def check_t2(ctx, tu, info):
